@@ -1312,3 +1312,765 @@ func strKeysOf(m map[string]string) []string {
 	sort.Strings(out)
 	return out
 }
+
+// orderedRebuildSinglePass (C02 / C09): an ordered container rebuilt from another keeps its order only if it is filled in one pass.
+func orderedRebuildSinglePass(c *Check, a *Anchors, rule string) {
+	c.Rule(rule, "wherever Task's own code fills an ordered container (ast.Vars, ast.Matrix, ast.Tasks, ast.Includes: Set appends a new key at the end) from a range over another ordered container, all the Set calls into that destination from that source are in ONE loop: filling it in two filtered passes over the same source (e.g. references first, literals second) silently reorders the entries — declaration order is what the matrix product, for-loops, variable resolution and task lookup iterate in")
+	n := 0
+	ord := map[string]int{}
+	for _, fb := range c.P.Bodies() {
+		if fb.Decl == nil || !strings.HasPrefix(fb.Pkg.PkgPath, Mod) || bceSkipPkgs[fb.Pkg.PkgPath] {
+			continue
+		}
+		info := fb.Info()
+		type pair struct {
+			dst *types.Var
+			src string
+		}
+		loops := map[pair][]*ast.RangeStmt{}
+		var order []pair
+		inspectDeep(fb.Body, func(nd ast.Node) bool {
+			r, ok := nd.(*ast.RangeStmt)
+			if !ok {
+				return true
+			}
+			call, ok := ast.Unparen(r.X).(*ast.CallExpr)
+			if !ok {
+				return true
+			}
+			fn, ok := callee(info, call).(*types.Func)
+			if !ok || fn.Pkg() == nil || fn.Pkg().Path() != PkgAst || (fn.Name() != "All" && fn.Name() != "Keys" && fn.Name() != "Values") {
+				return true
+			}
+			sel, ok := ast.Unparen(call.Fun).(*ast.SelectorExpr)
+			if !ok {
+				return true
+			}
+			src := exprStr(sel.X)
+			if v := rootVar(info, sel.X); v != nil {
+				src = shapeOfVar(v) + strings.TrimPrefix(exprStr(sel.X), v.Name())
+			}
+			seen := map[*types.Var]bool{}
+			ast.Inspect(r.Body, func(m ast.Node) bool {
+				if inner, ok := m.(*ast.RangeStmt); ok && inner != r {
+					// a nested loop over another container is its own pass
+					_ = inner
+				}
+				sc, ok := m.(*ast.CallExpr)
+				if !ok {
+					return true
+				}
+				sfn, ok := callee(info, sc).(*types.Func)
+				if !ok || sfn.Name() != "Set" || sfn.Pkg() == nil || sfn.Pkg().Path() != PkgAst {
+					return true
+				}
+				ssel, ok := ast.Unparen(sc.Fun).(*ast.SelectorExpr)
+				if !ok {
+					return true
+				}
+				dst := varOf(info, ssel.X)
+				if dst == nil || seen[dst] {
+					return true
+				}
+				seen[dst] = true
+				p := pair{dst, src}
+				if loops[p] == nil {
+					order = append(order, p)
+				}
+				loops[p] = append(loops[p], r)
+				return true
+			})
+			return true
+		})
+		for _, p := range order {
+			n++
+			c.Fn(fb)
+			key := ordinal(ord, shapeOfVar(p.dst)+"<-"+p.src+"@"+fnDisplay(fb))
+			c.Decide(len(loops[p]) == 1, rule, key, loops[p][0].Pos(), "filled in a single pass over the source",
+				fmt.Sprintf("`%s` is filled by Set from %d separate loops over `%s` in %s: the entries end up grouped by loop instead of in the source's declaration order", p.dst.Name(), len(loops[p]), p.src, fnDisplay(fb)))
+		}
+	}
+	c.Floor(rule, n, 2)
+}
+
+func shapeOfVar(v *types.Var) string {
+	return types.TypeString(v.Type(), func(p *types.Package) string { return p.Name() })
+}
+
+// cancellationPropagates (C03): the failure of one task reaches its siblings only through the context.
+func cancellationPropagates(c *Check, a *Anchors) {
+	c.Rule("cancellation-propagates", "in every function of package task reachable from RunTask (the deferred-command runner excepted: it must outlive cancellation, rule defer-runner), each context handed to a callee is the function's own context parameter or derived from it by a cancel-preserving constructor (context.WithCancel / WithTimeout / WithDeadline / WithValue, errgroup.WithContext) — never context.Background(), TODO() or WithoutCancel(): a task that runs under a detached context keeps starting commands after a sibling has failed")
+	reach := c.P.ReachableFrom([]*FuncBody{a.RunTask}, func(fb *FuncBody) bool { return fb == a.DeferRunner })
+	n := 0
+	ord := map[string]int{}
+	isCtx := func(t types.Type) bool { return t != nil && types.TypeString(t, nil) == "context.Context" }
+	for root := range reach {
+		if root.Decl == nil || root.Pkg.PkgPath != PkgTask || root == a.DeferRunner {
+			continue
+		}
+		for _, fb := range append([]*FuncBody{root}, allLits(root)...) {
+			info := fb.Info()
+			// context parameters of this body and of the enclosing bodies
+			params := map[*types.Var]bool{}
+			for p := fb; p != nil; p = p.Parent {
+				if p.Type.Params == nil {
+					continue
+				}
+				for _, fld := range p.Type.Params.List {
+					for _, id := range fld.Names {
+						if v, ok := info.Defs[id].(*types.Var); ok && isCtx(v.Type()) {
+							params[v] = true
+						}
+					}
+				}
+			}
+			if len(params) == 0 {
+				continue // no caller context in scope (variable evaluation has no context parameter): nothing to thread
+			}
+			var derived func(e ast.Expr, depth int) (bool, string)
+			derived = func(e ast.Expr, depth int) (bool, string) {
+				e = ast.Unparen(e)
+				if depth > 6 {
+					return false, "derivation too deep"
+				}
+				if call, ok := e.(*ast.CallExpr); ok {
+					fn, _ := callee(info, call).(*types.Func)
+					if fn == nil || fn.Pkg() == nil {
+						return false, "result of an unresolved call"
+					}
+					full := fn.Pkg().Path() + "." + fn.Name()
+					switch full {
+					case "context.WithCancel", "context.WithTimeout", "context.WithDeadline", "context.WithValue", "context.WithCancelCause", "golang.org/x/sync/errgroup.WithContext":
+						if len(call.Args) > 0 {
+							return derived(call.Args[0], depth+1)
+						}
+					case "context.Background", "context.TODO", "context.WithoutCancel":
+						return false, "context." + fn.Name() + "() — detached from the caller's cancellation"
+					}
+					return false, "result of " + full
+				}
+				v := varOf(info, e)
+				if v == nil {
+					return false, "`" + exprStr(e) + "`"
+				}
+				defs := defsOf(info, fb.Root().Body, v)
+				if params[v] && len(defs) == 0 {
+					return true, ""
+				}
+				if len(defs) == 0 {
+					return false, "`" + v.Name() + "` (no definition found)"
+				}
+				for _, d := range defs {
+					// x, cancel := context.WithCancel(x) mentions itself: judge the constructor's argument, not the variable again
+					if call, ok := ast.Unparen(d).(*ast.CallExpr); ok && len(call.Args) > 0 && varOf(info, call.Args[0]) == v {
+						fn, _ := callee(info, call).(*types.Func)
+						if fn != nil && fn.Pkg() != nil {
+							switch fn.Pkg().Path() + "." + fn.Name() {
+							case "context.WithCancel", "context.WithTimeout", "context.WithDeadline", "context.WithValue", "context.WithCancelCause", "golang.org/x/sync/errgroup.WithContext":
+								if params[v] {
+									continue
+								}
+							}
+						}
+					}
+					if ok, why := derived(d, depth+1); !ok {
+						return false, why
+					}
+				}
+				return true, ""
+			}
+			for _, call := range callsIn(fb, false) {
+				fn, _ := callee(info, call).(*types.Func)
+				if fn != nil && fn.Pkg() != nil && fn.Pkg().Path() == "context" {
+					continue // the constructors themselves are judged where their result is used
+				}
+				for _, arg := range call.Args {
+					tv, ok := info.Types[arg]
+					if !ok || !isCtx(tv.Type) {
+						continue
+					}
+					n++
+					c.Fn(root)
+					name := "value"
+					if fn != nil {
+						name = calleeName(fn)
+					} else if v := varOf(info, call.Fun); v != nil {
+						name = v.Name()
+					}
+					ok2, why := derived(arg, 0)
+					c.Decide(ok2, "cancellation-propagates", ordinal(ord, name+"@"+fnDisplay(root)), call.Pos(), "context derived from the caller's",
+						fmt.Sprintf("the context passed to %s in %s is %s: cancellation of the caller (a failed sibling, a signal) does not reach this callee, which goes on starting commands", name, fnDisplay(root), why))
+				}
+			}
+		}
+	}
+	c.Floor("cancellation-propagates", n, 6)
+}
+
+// timestampStateIsReference (C05): the state file records the time of the last run; it always takes part in the comparison.
+func timestampStateIsReference(c *Check, a *Anchors) {
+	c.Rule("timestamp-state-is-reference", "in the timestamp checker's IsUpToDate the path of the per-task state file is appended to the reference files (the argument of the max-time computation) whenever the state file exists — under no other condition: a run that leaves its outputs untouched is remembered only through the state file's time, so without it the task re-runs on every invocation")
+	ts := c.P.Func(PkgFingerprint, "TimestampChecker", "IsUpToDate")
+	if ts == nil {
+		c.Errorf("timestamp-state-is-reference: TimestampChecker.IsUpToDate not found")
+		return
+	}
+	c.Fn(ts)
+	info := ts.Info()
+	// the variable holding the state file path: defined from a method of the checker whose name contains "FilePath" / from a path helper
+	var pathVar *types.Var
+	inspectBody(ts.Body, func(nd ast.Node) bool {
+		if as, ok := nd.(*ast.AssignStmt); ok && len(as.Lhs) == 1 && len(as.Rhs) == 1 {
+			if call, ok := ast.Unparen(as.Rhs[0]).(*ast.CallExpr); ok {
+				if fn, ok := callee(info, call).(*types.Func); ok && fn.Pkg() != nil && fn.Pkg().Path() == PkgFingerprint {
+					if sig := fn.Type().(*types.Signature); sig.Recv() != nil && sig.Results().Len() == 1 && types.TypeString(sig.Results().At(0).Type(), nil) == "string" {
+						pathVar = varOf(info, as.Lhs[0])
+					}
+				}
+			}
+		}
+		return true
+	})
+	// the reference list: the variadic argument of the max-time helper
+	var refVar *types.Var
+	for _, call := range callsIn(ts, false) {
+		if call.Ellipsis.IsValid() && len(call.Args) == 1 {
+			if fn, ok := callee(info, call).(*types.Func); ok && fn.Pkg() != nil && fn.Pkg().Path() == PkgFingerprint {
+				refVar = varOf(info, call.Args[0])
+			}
+		}
+	}
+	if pathVar == nil || refVar == nil {
+		c.Errorf("timestamp-state-is-reference: state path variable or reference list not identified in %s", fnDisplay(ts))
+		return
+	}
+	pm := parentMap(ts.Body)
+	n := 0
+	inspectBody(ts.Body, func(nd ast.Node) bool {
+		as, ok := nd.(*ast.AssignStmt)
+		if !ok || len(as.Lhs) != 1 || len(as.Rhs) != 1 || varOf(info, as.Lhs[0]) != refVar {
+			return true
+		}
+		call, ok := ast.Unparen(as.Rhs[0]).(*ast.CallExpr)
+		if !ok || !isBuiltin(info, call, "append") {
+			return true
+		}
+		has := false
+		for _, arg := range call.Args[1:] {
+			if varOf(info, arg) == pathVar {
+				has = true
+			}
+		}
+		if !has {
+			return true
+		}
+		n++
+		var extra []string
+		for p := pm[ast.Node(as)]; p != nil; p = pm[p] {
+			ifs, ok := p.(*ast.IfStmt)
+			if !ok {
+				continue
+			}
+			inThen := within(as, ifs.Body)
+			cond := ast.Unparen(ifs.Cond)
+			be, isBin := cond.(*ast.BinaryExpr)
+			if isBin && isNilLit(info, be.Y) && isErrorType(typeOf(info, be.X)) && ((be.Op == token.EQL && inThen) || (be.Op == token.NEQ && !inThen)) {
+				continue // "the Stat succeeded"
+			}
+			extra = append(extra, exprStr(cond))
+		}
+		c.Decide(len(extra) == 0, "timestamp-state-is-reference", "append@"+fnDisplay(ts), as.Pos(), "the state file joins the reference files whenever it exists",
+			"the state file is added to the reference files only when additionally `"+strings.Join(extra, "`, `")+"` holds: otherwise the time of the last run is ignored and a task whose commands leave the generated files untouched runs again on every invocation")
+		return true
+	})
+	if n == 0 {
+		c.Bad("timestamp-state-is-reference", "append@"+fnDisplay(ts), ts.Body.Pos(), "the state file path is never appended to the reference files of the timestamp comparison")
+	}
+}
+
+func typeOf(info *types.Info, e ast.Expr) types.Type {
+	if tv, ok := info.Types[e]; ok {
+		return tv.Type
+	}
+	return nil
+}
+
+// setupOrder (C05 / C04): the setup steps form a pipeline over Executor fields: a step that reads a field runs after the step that writes it.
+var setupOrderExceptions = map[string]string{}
+
+func setupOrder(c *Check, a *Anchors, rule string) {
+	c.Rule(rule, "Executor.Setup calls its steps in an order consistent with their data flow: whenever step A assigns an Executor field that step B reads, A is called before B (e.g. the fingerprint state directory is derived from Executor.Dir, which the root-node step replaces by the directory of the Taskfile actually found: deriving it earlier makes the state location depend on the working directory, so an unchanged task re-runs — or a changed one is skipped — when invoked from elsewhere)")
+	setup := a.Setup
+	if setup == nil {
+		c.Errorf("%s: Executor.Setup not resolved", rule)
+		return
+	}
+	c.Fn(setup)
+	info := setup.Info()
+	type step struct {
+		name   string
+		pos    token.Pos
+		writes map[string]bool
+		reads  map[string]bool
+	}
+	var steps []*step
+	for _, call := range callsIn(setup, false) {
+		fn, ok := callee(info, call).(*types.Func)
+		if !ok {
+			continue
+		}
+		fb := c.P.DeclOf(fn)
+		if fb == nil || fb.Pkg.PkgPath != PkgTask || recvOf(fb) != "Executor" {
+			continue
+		}
+		st := &step{name: fn.Name(), pos: call.Pos(), writes: map[string]bool{}, reads: map[string]bool{}}
+		finfo := fb.Info()
+		written := map[ast.Expr]bool{}
+		fpm := parentMap(fb.Body)
+		inspectDeep(fb.Body, func(nd ast.Node) bool {
+			if as, ok := nd.(*ast.AssignStmt); ok {
+				for _, l := range as.Lhs {
+					if sel, ok := ast.Unparen(l).(*ast.SelectorExpr); ok {
+						if s := finfo.Selections[sel]; s != nil && s.Kind() == types.FieldVal && isNamed(s.Recv(), PkgTask, "Executor") {
+							written[sel] = true
+							// `if e.F == <zero> { e.F = default }` only fills in a value the caller left unset: not a producer
+							defaulting := false
+							for p := fpm[ast.Node(as)]; p != nil; p = fpm[p] {
+								if ifs, ok := p.(*ast.IfStmt); ok && within(as, ifs.Body) {
+									if be, ok := ast.Unparen(ifs.Cond).(*ast.BinaryExpr); ok && be.Op == token.EQL {
+										if xs, ok := ast.Unparen(be.X).(*ast.SelectorExpr); ok && finfo.Selections[xs] != nil && finfo.Selections[xs].Obj() == s.Obj() {
+											defaulting = true
+										}
+									}
+								}
+							}
+							if !defaulting {
+								st.writes[sel.Sel.Name] = true
+							}
+						}
+					}
+				}
+			}
+			return true
+		})
+		inspectDeep(fb.Body, func(nd ast.Node) bool {
+			if sel, ok := nd.(*ast.SelectorExpr); ok && !written[sel] {
+				if s := finfo.Selections[sel]; s != nil && s.Kind() == types.FieldVal && isNamed(s.Recv(), PkgTask, "Executor") {
+					st.reads[sel.Sel.Name] = true
+				}
+			}
+			return true
+		})
+		steps = append(steps, st)
+	}
+	n := 0
+	for i, b := range steps {
+		for j, w := range steps {
+			if i == j {
+				continue
+			}
+			for f := range w.writes {
+				if !b.reads[f] || b.writes[f] && w.reads[f] && j > i {
+					continue
+				}
+				// b reads f, w writes f
+				if b.writes[f] {
+					continue // b (re)establishes the field itself: its reads are of its own value or of the user's option
+				}
+				n++
+				key := fmt.Sprintf("%s reads %s written by %s", b.name, f, w.name)
+				if why, ok := setupOrderExceptions[key]; ok {
+					c.OK(rule, key, b.pos, "reviewed: "+why)
+					continue
+				}
+				c.Decide(j < i, rule, key, b.pos, "the writer runs first",
+					fmt.Sprintf("Setup calls %s before %s, but %s reads Executor.%s which %s assigns: the reader sees the field before it has its final value", b.name, w.name, b.name, f, w.name))
+			}
+		}
+	}
+	c.Floor(rule, n, 3)
+}
+
+// hashOptionsDefault + compiledFromDefinition (C06): the when_changed key is a faithful function of definition and variable values.
+func hashOptionsDefault(c *Check, a *Anchors) {
+	c.Rule("hash-options-faithful", "every call of hashstructure.Hash on the compiled task passes nil options or options that do not coarsen the key (no SlicesAsSets, IgnoreZeroValue, ZeroNil, UseStringer, custom TagName): with slices hashed as sets, calls whose values merely permute the generated commands collide and the second one is skipped")
+	n := 0
+	for _, fb := range c.P.BodiesIn(PkgHash) {
+		info := fb.Info()
+		for _, call := range callsIn(fb, true) {
+			fn, ok := callee(info, call).(*types.Func)
+			if !ok || fn.Pkg() == nil || !strings.Contains(fn.Pkg().Path(), "hashstructure") || fn.Name() != "Hash" {
+				continue
+			}
+			n++
+			c.Fn(fb)
+			ok2 := len(call.Args) >= 3 && isNilLit(info, call.Args[2])
+			why := ""
+			if !ok2 && len(call.Args) >= 3 {
+				var bad []string
+				ast.Inspect(call.Args[2], func(m ast.Node) bool {
+					if kv, ok := m.(*ast.KeyValueExpr); ok {
+						if id, ok := kv.Key.(*ast.Ident); ok {
+							switch id.Name {
+							case "SlicesAsSets", "IgnoreZeroValue", "ZeroNil", "UseStringer", "TagName":
+								if !constIs(info, kv.Value, "false") && !constIs(info, kv.Value, `""`) {
+									bad = append(bad, id.Name)
+								}
+							}
+						}
+					}
+					return true
+				})
+				if _, isLit := ast.Unparen(call.Args[2]).(*ast.UnaryExpr); isLit && len(bad) == 0 {
+					ok2 = true
+				}
+				why = strings.Join(bad, ", ")
+				if why == "" {
+					why = "options that are not a literal (cannot be shown to be the defaults)"
+				}
+			}
+			c.Decide(ok2, "hash-options-faithful", "Hash@"+fnDisplay(fb), call.Pos(), "default options", "the when_changed key is computed with "+why+": distinct sets of values (e.g. the same commands in another order) get the same key and the second call is skipped")
+		}
+	}
+	c.Floor("hash-options-faithful", n, 1)
+}
+
+func compiledFromDefinition(c *Check, a *Anchors, rule string) {
+	c.Rule(rule, "in the task compiler no field of the compiled ast.Task is computed from the call object itself (call.Silent, call.Indirect ...): the call contributes its variables through the variable resolver only. The compiled task is what run: when_changed hashes and what every later stage reads, so a call attribute copied into it makes two references with identical values differ (the task runs twice) or leaks how the task was reached into its behaviour")
+	fb := a.CompiledTask
+	task := c.P.NamedType(PkgAst, "Task")
+	if fb == nil || task == nil {
+		c.Errorf("%s: task compiler not resolved", rule)
+		return
+	}
+	c.Fn(fb)
+	info := fb.Info()
+	var callParam *types.Var
+	for _, fld := range fb.Type.Params.List {
+		for _, id := range fld.Names {
+			if v, ok := info.Defs[id].(*types.Var); ok {
+				if nt := namedOf(v.Type()); nt != nil && nt.Obj().Name() == "Call" {
+					callParam = v
+				}
+			}
+		}
+	}
+	if callParam == nil {
+		c.Errorf("%s: the task compiler has no *Call parameter", rule)
+		return
+	}
+	fields, lit := producedFields(fb, task)
+	if lit == nil {
+		c.Errorf("%s: no ast.Task literal in the task compiler", rule)
+		return
+	}
+	n := 0
+	names := make([]string, 0, len(fields))
+	for k := range fields {
+		names = append(names, k)
+	}
+	sort.Strings(names)
+	for _, name := range names {
+		n++
+		bad := ""
+		ast.Inspect(fields[name], func(m ast.Node) bool {
+			if sel, ok := m.(*ast.SelectorExpr); ok && varOf(info, sel.X) == callParam {
+				bad = exprStr(sel)
+			}
+			return true
+		})
+		c.Decide(bad == "", rule, "Task."+name+"@"+fnDisplay(fb), fields[name].Pos(), "computed from the definition and the resolved variables",
+			"the compiled field "+name+" is computed from `"+bad+"`: an attribute of the call, not of the definition or the variable values, becomes part of the compiled task (and of its when_changed key)")
+	}
+	c.Floor(rule, n, 30)
+}
+
+// namespaceAlwaysPrepended (C08): the namespacing helper has exactly two behaviours.
+func namespaceAlwaysPrepended(c *Check, a *Anchors) {
+	c.Rule("namespace-always-prepended", "the helper Tasks.Merge uses to namespace task names, dependency targets, call targets and aliases returns, for every name that is not a root reference (leading separator), an expression built from BOTH the namespace and the name; no other branch returns the name unchanged or shortened — an 'already qualified' shortcut binds a task or reference of the included file to a different name than <namespace>:<task> (a task named docker:login in an include called docker, a nested include that re-uses its parent's namespace)")
+	merge := c.P.Func(PkgAst, "Tasks", "Merge")
+	if merge == nil {
+		c.Errorf("namespace-always-prepended: Tasks.Merge not found")
+		return
+	}
+	minfo := merge.Info()
+	var helper *FuncBody
+	for _, call := range callsIn(merge, true) {
+		fn, ok := callee(minfo, call).(*types.Func)
+		if !ok || fn.Pkg() == nil || fn.Pkg().Path() != PkgAst {
+			continue
+		}
+		for _, arg := range call.Args {
+			if fieldSel(minfo, arg, PkgAst, "Include", "Namespace") {
+				if d := c.P.DeclOf(fn); d != nil && d.Type.Results != nil && d.Type.Results.NumFields() == 1 {
+					helper = d
+				}
+			}
+		}
+	}
+	if helper == nil {
+		c.Errorf("namespace-always-prepended: no helper of taskfile/ast receives Include.Namespace in Tasks.Merge")
+		return
+	}
+	c.Fn(helper)
+	info := helper.Info()
+	var params []*types.Var
+	for _, fld := range helper.Type.Params.List {
+		for _, id := range fld.Names {
+			if v, ok := info.Defs[id].(*types.Var); ok {
+				params = append(params, v)
+			}
+		}
+	}
+	if len(params) != 2 {
+		c.Errorf("namespace-always-prepended: helper %s does not have (name, namespace) parameters", fnDisplay(helper))
+		return
+	}
+	// which parameter is the namespace: the one bound to Include.Namespace at the call sites
+	nsIdx := -1
+	for _, call := range callsIn(merge, true) {
+		if a.is(callee(minfo, call), helper) {
+			for i, arg := range call.Args {
+				if fieldSel(minfo, arg, PkgAst, "Include", "Namespace") {
+					nsIdx = i
+				}
+			}
+		}
+	}
+	if nsIdx < 0 {
+		c.Errorf("namespace-always-prepended: namespace parameter not identified")
+		return
+	}
+	ns, name := params[nsIdx], params[1-nsIdx]
+	mentions := func(e ast.Expr, v *types.Var, depth int) bool {
+		return mentionsVia(info, helper.Body, e, v, depth)
+	}
+	pm := parentMap(helper.Body)
+	n := 0
+	ord := map[string]int{}
+	for _, r := range returnsOf(helper.Body) {
+		if len(r.Results) != 1 {
+			continue
+		}
+		n++
+		res := r.Results[0]
+		// is this return governed by "the name starts with the separator"
+		root := false
+		for p := pm[ast.Node(r)]; p != nil; p = pm[p] {
+			if ifs, ok := p.(*ast.IfStmt); ok && within(r, ifs.Body) {
+				if call, ok := ast.Unparen(ifs.Cond).(*ast.CallExpr); ok && isFunc(callee(info, call), "strings", "", "HasPrefix") && len(call.Args) == 2 &&
+					varOf(info, call.Args[0]) == name && constIs(info, call.Args[1], `":"`) {
+					root = true
+				}
+			}
+		}
+		key := ordinal(ord, "return@"+fnDisplay(helper))
+		if root {
+			c.OK("namespace-always-prepended", key, r.Pos(), "root-reference branch")
+			continue
+		}
+		both := mentions(res, ns, 2) && mentions(res, name, 2)
+		c.Decide(both, "namespace-always-prepended", key, r.Pos(), "built from the namespace and the name",
+			"outside the root-reference branch the helper returns `"+exprStr(res)+"`, which is not built from both the namespace and the name: some names of an included Taskfile are registered (or referenced) without their namespace")
+	}
+	c.Floor("namespace-always-prepended", n, 2)
+}
+
+// environIsLowest (C10): the process environment is the bottom layer wherever variable sets are combined.
+func environIsLowest(c *Check, a *Anchors) {
+	c.Rule("environ-is-base", "wherever the process environment (env.GetEnviron()) is combined with Taskfile variables — the variable resolver, the templating of include statements, dotenv evaluation — it is the BASE set that the others are merged into: it is never passed as the argument of Vars.Merge (the argument wins over the receiver), so a global variable always beats an environment variable of the same name")
+	n := 0
+	ord := map[string]int{}
+	for _, fb := range c.P.Bodies() {
+		if !strings.HasPrefix(fb.Pkg.PkgPath, Mod) || bceSkipPkgs[fb.Pkg.PkgPath] {
+			continue
+		}
+		info := fb.Info()
+		root := fb.Root()
+		envVars := map[*types.Var]bool{}
+		isEnvCall := func(e ast.Expr) bool {
+			call, ok := ast.Unparen(e).(*ast.CallExpr)
+			return ok && isFunc(callee(info, call), PkgEnv, "", "GetEnviron")
+		}
+		found := false
+		inspectBody(fb.Body, func(nd ast.Node) bool {
+			if as, ok := nd.(*ast.AssignStmt); ok && len(as.Lhs) == len(as.Rhs) {
+				for i, r := range as.Rhs {
+					if isEnvCall(r) {
+						if v := varOf(info, as.Lhs[i]); v != nil {
+							envVars[v] = true
+						}
+					}
+				}
+			}
+			if call, ok := nd.(*ast.CallExpr); ok && isEnvCall(call) {
+				found = true
+			}
+			return true
+		})
+		if !found {
+			continue
+		}
+		n++
+		c.Fn(root)
+		bad := ""
+		inspectDeep(fb.Body, func(nd ast.Node) bool {
+			call, ok := nd.(*ast.CallExpr)
+			if !ok {
+				return true
+			}
+			fn, ok := callee(info, call).(*types.Func)
+			if !ok || fn.Name() != "Merge" || fn.Pkg() == nil || fn.Pkg().Path() != PkgAst {
+				return true
+			}
+			for _, arg := range call.Args {
+				if isEnvCall(arg) || (varOf(info, arg) != nil && envVars[varOf(info, arg)]) {
+					bad = exprStr(call)
+				}
+			}
+			return true
+		})
+		c.Decide(bad == "", "environ-is-base", ordinal(ord, "GetEnviron@"+fnDisplay(root)), fb.Body.Pos(), "the environment is the receiver (base) of every merge",
+			"`"+bad+"` merges the process environment INTO another variable set: Merge lets its argument win, so an environment variable overrides a Taskfile variable of the same name here")
+	}
+	c.Floor("environ-is-base", n, 2)
+}
+
+// memoOnlySuccess (C11): a failed evaluation is not remembered.
+func memoOnlySuccess(c *Check, a *Anchors) {
+	c.Rule("memo-only-success", "in the dynamic-variable evaluator every store into the memo table (Compiler.dynamicCache) is dominated by the nil edge of the command that produced the value: the partial output of a failed `sh:` command must not be served to later evaluations of the same text in this invocation (a task would then see a value that depends on an earlier task's failure)")
+	fb := a.HandleDynamicVar
+	if fb == nil {
+		c.Errorf("memo-only-success: dynamic-variable evaluator not resolved")
+		return
+	}
+	n := 0
+	for _, g := range c.P.groupOf(fb, 2) {
+		info := g.Info()
+		hasStore := false
+		inspectBody(g.Body, func(nd ast.Node) bool {
+			if as, ok := nd.(*ast.AssignStmt); ok {
+				for _, l := range as.Lhs {
+					if ix, ok := ast.Unparen(l).(*ast.IndexExpr); ok && fieldSel(info, ix.X, PkgTask, "Compiler", "dynamicCache") {
+						hasStore = true
+					}
+				}
+			}
+			return true
+		})
+		if !hasStore {
+			continue
+		}
+		c.Fn(g)
+		f := NewFlow(c.P, g, func(call *ast.CallExpr, obj types.Object) string {
+			if isFunc(obj, PkgExecext, "", "RunCommand") {
+				return "run"
+			}
+			return ""
+		})
+		f.Run()
+		for node, st := range f.At {
+			as, ok := node.(*ast.AssignStmt)
+			if !ok {
+				continue
+			}
+			for _, l := range as.Lhs {
+				ix, ok := ast.Unparen(l).(*ast.IndexExpr)
+				if !ok || !fieldSel(info, ix.X, PkgTask, "Compiler", "dynamicCache") {
+					continue
+				}
+				n++
+				c.Decide(st.Has("called:run") && st.Has("nil:run"), "memo-only-success", fmt.Sprintf("store#%d@%s", n, fnDisplay(g)), as.Pos(), "stored only after the command succeeded",
+					"the memo table is written on a path where the `sh:` command's error is not established nil (must-facts: "+st.String()+"): the output of a failed command is cached and returned, without an error, to the next evaluation of the same command text")
+			}
+		}
+	}
+	c.Floor("memo-only-success", n, 1)
+}
+
+// templatePerString (C11 / C18): each string is parsed into a template of its own.
+func templatePerString(c *Check, a *Anchors) {
+	c.Rule("template-per-string", "every text/template Parse / New / Execute in Task's own code is applied to a template created by the package-level constructor template.New in the same function activation, never to a template stored in a package-level variable or a struct field: templates derived from a shared one share its set of named templates ({{define}} / {{block}}), so one task's definitions leak into — and race with — another's")
+	n := 0
+	ord := map[string]int{}
+	for _, fb := range c.P.Bodies() {
+		if !strings.HasPrefix(fb.Pkg.PkgPath, Mod) || bceSkipPkgs[fb.Pkg.PkgPath] {
+			continue
+		}
+		info := fb.Info()
+		for _, call := range callsIn(fb, false) {
+			fn, ok := callee(info, call).(*types.Func)
+			if !ok || fn.Pkg() == nil || !strings.HasSuffix(fn.Pkg().Path(), "/template") {
+				continue
+			}
+			sig := fn.Type().(*types.Signature)
+			if sig.Recv() == nil {
+				continue
+			}
+			switch fn.Name() {
+			case "Parse", "New", "Execute", "ExecuteTemplate", "Funcs", "AddParseTree", "Resolve":
+			default:
+				continue
+			}
+			sel, ok := ast.Unparen(call.Fun).(*ast.SelectorExpr)
+			if !ok {
+				continue
+			}
+			// walk down the receiver chain to its root
+			root := ast.Unparen(sel.X)
+			for {
+				if rc, ok := root.(*ast.CallExpr); ok {
+					if rs, ok := ast.Unparen(rc.Fun).(*ast.SelectorExpr); ok {
+						if rf, ok := callee(info, rc).(*types.Func); ok && rf.Type().(*types.Signature).Recv() != nil {
+							root = ast.Unparen(rs.X)
+							continue
+						}
+					}
+				}
+				break
+			}
+			n++
+			c.Fn(fb.Root())
+			fresh, what := false, exprStr(root)
+			if rc, ok := root.(*ast.CallExpr); ok {
+				if rf, ok := callee(info, rc).(*types.Func); ok && rf.Name() == "New" && rf.Type().(*types.Signature).Recv() == nil {
+					fresh = true
+				}
+			} else if v := varOf(info, root); v != nil {
+				if v.Parent() != nil && v.Parent() != v.Pkg().Scope() && !v.IsField() {
+					// a local: every definition must be rooted at template.New
+					defs := defsOf(info, fb.Root().Body, v)
+					fresh = len(defs) > 0
+					for _, d := range defs {
+						ok := false
+						ast.Inspect(d, func(m ast.Node) bool {
+							if rc, isCall := m.(*ast.CallExpr); isCall {
+								if rf, isFn := callee(info, rc).(*types.Func); isFn && rf.Name() == "New" && rf.Type().(*types.Signature).Recv() == nil && rf.Pkg() != nil && strings.HasSuffix(rf.Pkg().Path(), "/template") {
+									ok = true
+								}
+							}
+							return true
+						})
+						// a definition that chains from another package-level template is not fresh
+						ast.Inspect(d, func(m ast.Node) bool {
+							if id, isId := m.(*ast.Ident); isId {
+								if pv, isVar := info.Uses[id].(*types.Var); isVar && pv.Parent() == pv.Pkg().Scope() && namedOf(pv.Type()) != nil && namedOf(pv.Type()).Obj().Name() == "Template" {
+									ok = false
+								}
+							}
+							return true
+						})
+						if !ok {
+							fresh = false
+						}
+					}
+				} else {
+					what = "package-level / field `" + v.Name() + "`"
+				}
+			}
+			c.Decide(fresh, "template-per-string", ordinal(ord, fn.Name()+"@"+fnDisplay(fb.Root())), call.Pos(), "applied to a template created by template.New in this activation",
+				"(*Template)."+fn.Name()+" is applied to "+what+", not to a template freshly created by template.New here: templates created from a shared template share its named sub-templates, so {{define}}/{{block}} bodies of one task are visible in (and written concurrently with) another task's templates")
+		}
+	}
+	c.Floor("template-per-string", n, 3)
+}
